@@ -12,7 +12,7 @@ OPN = {'LINE': 0, 'SETC': 1, 'COPY': 2, 'ADDC': 3, 'SUBC': 4, 'JZ': 5, 'JMP': 6,
 
 
 # ------------------------------------------------------------------------------------------------ shapes
-LOOPY = {'nested_loops_oneline', 'call_in_loop_oneline', 'loop_bound_assigned', 'while_dec', 'goto_back', 'goto_into_loop', 'goto_out_of_loop', 'stop_mid', 'call_in_loop', 'call_two_args_out', 'call_nested_arg', 'callee_stop', 'nested_loops', 'while_in_loop'}
+LOOPY = {'loop_detour', 'nested_loops_oneline', 'call_in_loop_oneline', 'loop_bound_assigned', 'while_dec', 'goto_back', 'goto_into_loop', 'goto_out_of_loop', 'stop_mid', 'call_in_loop', 'call_two_args_out', 'call_nested_arg', 'callee_stop', 'nested_loops', 'while_in_loop'}
 
 
 def shapes(tier, seed):
@@ -28,6 +28,9 @@ def shapes(tier, seed):
     L.append(('goto_back', P([('set', 'x1', 0), ('label', 'l', ('ifgoto', 'x1', 1, 'e')), ('sub', 'x1', 'x1', 2), ('add', 'x0', 'x0', 3), ('goto', 'l'), ('label', 'e', ('copy', 'x2', 'x0'))])))
     L.append(('goto_into_loop', P([('set', 'n', 0), ('goto', 'lin'), ('loop', 'n', [('add', 'x0', 'x0', 1), ('label', 'lin', ('add', 'x1', 'x1', 2))])])))
     L.append(('goto_out_of_loop', P([('set', 'n', 0), ('loop', 'n', [('add', 'x0', 'x0', 1), ('ifgoto', 'x0', 2, 'lout')]), ('label', 'lout', ('copy', 'x1', 'x0'))])))
+    # detour: jump out of a LOOP body to code behind the loop that needs a temporary, and back into the body (the counter must survive the detour)
+    L.append(('loop_detour', P([('set', 'n', 0), ('loop', 'n', [('add', 'a', 'a', 1), ('goto', 'lo'), ('label', 'lb', ('add', 'b', 'b', 2))]), ('goto', 'lf'),
+                                ('label', 'lo', ('add', 'c', 'c', 3)), ('goto', 'lb'), ('label', 'lf', ('copy', 'd', 'a'))])))
     L.append(('stop_mid', P([('set', 'x0', 0), ('ifgoto', 'x0', 1, 's'), ('set', 'x1', 2), ('label', 's', ('stop',)), ('set', 'x2', 3)])))
     L.append(('call_simple', P([('set', 'y', 0), ('call', 'x1', 'f', [('var', 'y')])], [f1])))
     L.append(('call_in_loop', P([('set', 'n', 0), ('loop', 'n', [('call', 'y', 'f', [('var', 'y')])])], [dict(f1, body=[('add', 'x0', 'a', 1)])])))
@@ -38,6 +41,9 @@ def shapes(tier, seed):
     L.append(('redefinition', P([('call', 'r', 'f', [('lit', 0)])], [dict(f1, body=[('add', 'x0', 'a', 1)]), dict(f1, body=[('sub', 'x0', 'a', 2)])])))
     L.append(('no_params', P([('call', 'r', 'c', [])], [{'name': 'c', 'params': [], 'out': None, 'body': [('set', 'x0', 0)]}])))
     L.append(('out_is_param', P([('call', 'r', 'o', [('lit', 0)])], [{'name': 'o', 'params': ['a'], 'out': 'a', 'body': [('add', 'a', 'a', 1)]}])))
+    # the result variable (implicit x0 / declared OUT) is neither a parameter nor mentioned in the body: it still needs its own zeroed register
+    L.append(('out_unmentioned', P([('call', 'r', 'u', [('lit', 0)]), ('call', 's', 'v', [('lit', 1)])],
+                                   [{'name': 'u', 'params': ['a'], 'out': None, 'body': [('copy', 'b', 'a')]}, {'name': 'v', 'params': ['a'], 'out': 'z', 'body': [('add', 'b', 'a', 2)]}])))
     L.append(('nested_loops', P([('set', 'n', 0), ('set', 'm', 1), ('loop', 'n', [('loop', 'm', [('add', 'x0', 'x0', 2)])])])))
     L.append(('while_in_loop', P([('set', 'n', 0), ('loop', 'n', [('set', 'w', 1), ('while', 'w', [('sub', 'w', 'w', 2), ('add', 'x0', 'x0', 3)])])])))
     L.append(('include_defs', P([('set', 'y', 0), ('call', 'x1', 'f', [('var', 'y')]), ('add', 'x1', 'x1', 1)], [dict(f1, body=[('add', 'x0', 'a', 2)])]), True))
